@@ -61,8 +61,9 @@ def gen_program(rng):
 # decidable harness-side guards for the classes the textual model cannot see
 
 def continuation_lines(text):
-    """1-based physical lines that are NOT the start of a logical line because the previous line
-    ends in a backslash, or that lie inside a multi-line string token."""
+    """1-based physical lines for which the (repaired) add-ignores step cannot work: lines that lie
+    inside a multi-line string token (a comment line above them becomes part of the string), and
+    lines that themselves end in a backslash (no trailing comment possible)."""
     bad = set()
     lines = text.split("\n")
     try:
@@ -72,8 +73,8 @@ def continuation_lines(text):
     except (tokenize.TokenError, SyntaxError, IndentationError):
         pass
     for i, l in enumerate(lines, 1):
-        if l.rstrip("\n").endswith("\\") and i + 1 <= len(lines):
-            bad.add(i + 1)
+        if l.rstrip().endswith("\\"):
+            bad.add(i)
     return bad
 
 
@@ -208,6 +209,31 @@ FIX_TEMPLATES += [
     ("unused_variable", ["lam{k} = [i for i in range(2) for j{k} in range(2)]"], "lam{k}"),
     ("too_many_positional_args", ["t{k} = (callee(1, 2, 3, 4, 5, 6, 7, 8, 9, x, y),", "        x)"], "t{k}"),
 ]
+# replace_node regenerates the whole enclosing statement from a copy of its AST: the fixable node sits
+# inside rich statements (dict displays with **, calls with * / **, lambdas and defs with keyword-only /
+# positional-only parameters with and without defaults, f-strings, conditional expressions,
+# comprehensions, walrus, star targets, decorators, annotations, multi-line forms)
+RICH_TEMPLATES = [
+    ("use_fstrings", ["o{k} = {{**{{'a': y}}, 'label': 'v %s' % x, **{{'b': 1}}}}"], "o{k}"),
+    ("use_fstrings", ["o{k} = {{", "    **{{'a': y}},", "    'label': 'v %s' % x,", "    **{{'b': 1}},", "}}"], "o{k}"),
+    ("use_fstrings", ["f{k} = lambda *, sep='-', word: 'p %s' % x + sep + word"], "f{k}(word='w')"),
+    ("use_fstrings", ["f{k} = lambda a, /, b=2, *c, d, e=5, **g: ('q %s' % x, a, b, c, d, e, g)"], "f{k}(1, d=4)"),
+    ("use_fstrings", ["t{k} = callee(*[1, 2, 3], *[4, 5, 6, 7, 8, 9], **{{'j': 's %s' % x, 'k': y}})"], "t{k}"),
+    ("use_fstrings", ["c{k} = ['c %s' % i for i in range(2) if i or x]"], "c{k}"),
+    ("use_fstrings", ["w{k} = ('w %s' % x) if (n{k} := x) else 'none'"], "w{k}, n{k}"),
+    ("use_fstrings", ["a{k}, *b{k} = 'u %s' % x, 1, 2"], "a{k}, b{k}"),
+    ("use_fstrings", ["g{k} = f'{{x}} and ' + 'p %s' % y"], "g{k}"),
+    ("use_fstrings", ["@(lambda fn, *, tag='t %s' % x: fn)", "def d{k}(*, q, r=2):", "    return q, r"], "d{k}(q=1)"),
+    ("use_fstrings", ["def an{k}(a: 'n %s' % x = 1, *, b, **kw):", "    return a, b, kw"], "an{k}(b=2)"),
+    ("use_fstrings", ["print({{**{{'a': 1}}, 'm': 'x %s' % x}}, *[1, 2], sep='|', **{{'end': '!\\n'}})"], "x"),
+    ("missing_f", ["v{k} = {{**{{'a': 1}}, 'm': 'x = {{x}}'}}"], "v{k}"),
+    ("missing_f", ["h{k} = lambda *, pre='>', suf: pre + 'x = {{x}}' + suf"], "h{k}(suf='<')"),
+    ("too_many_positional_args", ["o{k} = {{**{{'a': 1}}, 'r': callee(1, 2, 3, 4, 5, 6, 7, 8, 9, x, y)}}"], "o{k}"),
+    ("too_many_positional_args", ["l{k} = lambda *, z: callee(1, 2, 3, 4, 5, 6, 7, 8, 9, x, z)"], "l{k}(z=0)"),
+    ("unused_variable", ["o{k} = {{**{{'a': 1}}, 'r': [0 for q{k} in range(2)]}}"], "o{k}"),
+    ("unused_variable", ["l{k} = lambda *, z: [z for q{k} in range(2)]"], "l{k}(z=1)"),
+]
+FIX_TEMPLATES += RICH_TEMPLATES
 # the replacement attached to unused_ignore reports (remove the comment line / strip the comment)
 FIX_TEMPLATES += [
     ("unused_ignore", ["# static analysis: ignore[bad_unpack]", "print(x)"], "x"),
@@ -330,20 +356,68 @@ def _behaviour(text):
     return out
 
 
-def intended_text(code, text, lineno=None):
+def intended_text(code, text, lineno=None, col=None):
     """The program the fix is meant to produce, as far as behaviour goes: for missing_f the string
-    literal on the reported line becomes an f-string; the other fixes keep the behaviour."""
-    if code != "missing_f":
+    literal at the reported position becomes an f-string; the other fixes keep the behaviour."""
+    if code != "missing_f" or lineno is None:
         return text
-    out = []
-    for i, l in enumerate(text.split("\n"), 1):
-        if lineno is None or i == lineno:
-            if " = '" in l and "{" in l:
-                l = l.replace(" = '", " = f'", 1)
-            elif ' = "' in l and "{" in l:
-                l = l.replace(' = "', ' = f"', 1)
-        out.append(l)
+    out = text.split("\n")
+    l = out[lineno - 1]
+    if col is not None and col < len(l) and l[col] in "'\"":
+        out[lineno - 1] = l[:col] + "f" + l[col:]
     return "\n".join(out)
+
+
+# (ii) "the only semantic change is the intended one" as an AST statement: old and new tree may differ
+# only inside the sub-tree of the node the diagnostic was reported on
+REPLACED_NODE = {"use_fstrings": ast.BinOp, "missing_f": ast.Constant, "too_many_positional_args": ast.Call}
+
+
+def ast_diff_roots(a, b):
+    """Minimal sub-trees of `a` on which the two trees differ (fields only, positions ignored)."""
+    roots = []
+
+    def walk(x, y):
+        if type(x) is not type(y):
+            roots.append(x)
+            return
+        for f in x._fields:
+            vx, vy = getattr(x, f, None), getattr(y, f, None)
+            if isinstance(vx, list) and isinstance(vy, list):
+                if len(vx) != len(vy):
+                    roots.append(x)
+                    return
+                for ex, ey in zip(vx, vy):
+                    if isinstance(ex, ast.AST) and isinstance(ey, ast.AST):
+                        walk(ex, ey)
+                    elif ex != ey:
+                        roots.append(x)
+                        return
+            elif isinstance(vx, ast.AST) and isinstance(vy, ast.AST):
+                walk(vx, vy)
+            elif isinstance(vx, ast.AST) or isinstance(vy, ast.AST) or vx != vy:
+                roots.append(x)
+                return
+
+    walk(a, b)
+    return roots
+
+
+def ast_change_outside_target(code, old_text, new_text, lineno, col):
+    """None if every difference between the two trees lies inside the node reported at (lineno, col)
+    (of the kind the fix replaces); otherwise a description of a difference outside it."""
+    kind = REPLACED_NODE.get(code)
+    if kind is None:
+        return None
+    old, new = ast.parse(old_text), ast.parse(new_text)
+    cands = [n for n in ast.walk(old) if isinstance(n, kind) and getattr(n, "lineno", None) == lineno and getattr(n, "col_offset", None) == col]
+    if not cands:
+        return None
+    inside = {id(n) for n in ast.walk(cands[0])}
+    for r in ast_diff_roots(old, new):
+        if id(r) not in inside:
+            return f"{type(r).__name__} at line {getattr(r, 'lineno', '?')} changed outside the replaced {kind.__name__}: {ast.dump(r)[:160]}"
+    return None
 
 
 def removal_facts(text, applied):
@@ -466,7 +540,7 @@ def run(tier: str, replay: str | None = None):
                 fix_cases.append((c["code"], c["fix_lines"]))
             else:
                 iter_cases.append((c["text"], c["cfg"]))
-        n_iter = 110 if tier == "quick" else 500
+        n_iter = 90 if tier == "quick" else 500
         for i in range(n_iter):
             iter_cases.append(("\n".join(gen_program(rng)) + "\n", BASE_CFG))
         for i in range(3 if tier == "quick" else 12):
@@ -474,7 +548,7 @@ def run(tier: str, replay: str | None = None):
             iter_cases.append((f"import os\ndef f{k}():\n    print(undef_{k})  {IGNORE}[bad_unpack]\n    return os.sep\n", UNUSED_ON_CFG))
         for i, t in enumerate(FIX_TEMPLATES):
             fix_cases.append(gen_fix_program(rng, i, forced=t))
-        for i in range(220 if tier == "quick" else 1100):
+        for i in range(160 if tier == "quick" else 1100):
             fix_cases.append(gen_fix_program(rng, 100 + i))
 
     # ---- part A: the add-ignores iteration --------------------------------
@@ -664,10 +738,14 @@ def run(tier: str, replay: str | None = None):
                     extra = {k: v for k, v in (ca - cb).items() if not (code == "unused_variable" and k[0] == "unused_variable")}
                     if extra:
                         problems.append(f"new diagnostics after the fix: {sorted(extra)}")
-                want = behaviour(intended_text(code, text, before[0][1] if before else None))
+                want = behaviour(intended_text(code, text, before[0][1] if before else None, before[0][2] if before else None))
                 got = behaviour(new)
                 if got != want:
                     problems.append(f"behaviour is not the intended one: expected {want}, got {got}")
+                if before:
+                    out_of_node = ast_change_outside_target(code, text, new, before[0][1], before[0][2])
+                    if out_of_node:
+                        problems.append("syntax tree changed outside the intended node: " + out_of_node)
                 sm = difflib.SequenceMatcher(a=text.splitlines(), b=new.splitlines(), autojunk=False)
                 blocks = [op for op in sm.get_opcodes() if op[0] != "equal"]
                 if len(blocks) != 1:
